@@ -224,6 +224,7 @@ def input_consts(h):
         ("READ_ERROR", status_const(h, READ_MAIN, "EXIT_STATUS_READ_ERROR"), f"`EXIT_STATUS_READ_ERROR`, {READ_MAIN}"),
         ("SYNTAX_ERROR", status_const(h, SEMANTICS, "ERROR"), f"`ExitStatus::ERROR`, {SEMANTICS}"),
         ("NOT_FOUND", status_const(h, SEMANTICS, "NOT_FOUND"), f"`ExitStatus::NOT_FOUND`, {SEMANTICS}"),
+        ("CMD_READ_ERROR", status_const(h, SEMANTICS, "READ_ERROR"), f"`ExitStatus::READ_ERROR` (the command reader failed), {SEMANTICS}"),
     ]
     body = ""
     for name, val, doc in items:
